@@ -267,7 +267,7 @@ def emit(f):
               "de_column_returns_owned_vec",
               "clear_sets_length_first", "adopt_requires_no_allocation",
               "remove_defers_drops", "remove_decrements_length_first", "remove_frees_identifier_first",
-              "entry_remove_drops_last",
+              "entry_remove_drops_last", "clear_subtracts_len_per_archetype", "extend_counts_after_storing",
               "clone_from_hides_rows_first", "clone_from_writes_back_on_unwind", "clone_from_identifier_column_written_back",
               "world_clone_from_forgets_identifiers_first", "world_clone_from_clears_on_unwind",
               "resource_reshape_indices_per_level",
@@ -487,6 +487,21 @@ def order_facts():
     i_self = b.find("self.location=location;")
     i_drop = b.find("drop(unsafe{current_component_bytes.as_ptr().add(offset)")
     f["entry_remove_drops_last"] = 0 <= i_push < i_loc < i_self < i_drop and b.count("drop(unsafe{") == 1
+    # --- len() (findings F13, F16): the count is taken down archetype by archetype while clearing, and a batch is
+    # counted once it is stored
+    at = read("src/archetypes/mod.rs")
+    bs = [norm(b) for q, n, b in fn_bodies(at) if n == "clear"]
+    wsrc = read("src/world/mod.rs")
+    wc_ = [norm(b) for q, n, b in fn_bodies(wsrc) if n == "clear"]
+    f["clear_subtracts_len_per_archetype"] = (
+        len(bs) == 1 and bs[0] == "forarchetypeinself.iter_mut(){*len-=archetype.len();unsafe{archetype.clear(entity_allocator)};}"
+        and len(wc_) == 1 and "self.archetypes.clear(&mutself.entity_allocator,&mutself.len);" in wc_[0] and "self.len=0" not in wc_[0])
+    we = [norm(b) for q, n, b in fn_bodies(wsrc) if n == "extend" and "canonical_entities" in b]
+    if len(we) != 1:
+        raise ParseFailure("world/mod.rs: extend")
+    i_store = we[0].find(".extend(canonical_entities,&mutself.entity_allocator)")
+    i_count = we[0].find("self.len+=length;")
+    f["extend_counts_after_storing"] = 0 <= i_store < i_count and we[0].count("self.len+=") == 1
     # --- clone_from (findings F8c, F11)
     ac = read("src/archetype/impl_clone.rs")
     bs = [norm(b) for q, n, b in fn_bodies(ac) if n == "clone_from"]
